@@ -45,7 +45,10 @@ fn permutations(n: usize, t: &mut Tape, limit: usize) -> Vec<Vec<usize>> {
 
 pub fn check_blocks(ctx: &Ctx, tape: &[u8], cfg: &Cfg, stats: &mut Stats) -> Result<(), Fail> {
     let split = tape.len().saturating_sub(24);
-    let (prog, k, _feats) = generate::gen_block_program(&tape[..split], cfg);
+    // every other case has parameters (`param (x : T) that`), the block being applied to their values
+    let with_params = tape.first().map(|b| b % 2 == 1).unwrap_or(false);
+    let (prog, k, params, _feats) = generate::gen_param_block_program(&tape[..split], cfg, with_params);
+    let with_params = params.iter().any(|p| *p);
     let mut st = Tape::new(&tape[split..]);
     let stdin = h::gen_stdin(&mut st);
     let reference = h::reference_run(&prog, &stdin, 300_000);
@@ -62,9 +65,22 @@ pub fn check_blocks(ctx: &Ctx, tape: &[u8], cfg: &Cfg, stats: &mut Stats) -> Res
     let dir = thread_dir(ctx);
     let mut first: Option<(bool, Vec<u8>, String)> = None;
     let limit = ctx.tier.pick(8, 30);
-    for perm in permutations(n, &mut st, limit) {
+    let n = if with_params { k } else { n };
+    for mut perm in permutations(n, &mut st, limit) {
         let mut pr = print::Printer::new(&prog, &names, &style);
-        pr.program_as_block(k, &perm);
+        if with_params {
+            // parameters keep their relative order (it fixes the argument order of the block)
+            let slots: Vec<usize> = perm.iter().enumerate().filter(|(_, i)| params[**i]).map(|(pos, _)| pos).collect();
+            let mut ps: Vec<usize> = slots.iter().map(|pos| perm[*pos]).collect();
+            ps.sort();
+            for (pos, i) in slots.iter().zip(ps) {
+                perm[*pos] = i;
+            }
+            pr.program_as_param_block(k, &perm, &params);
+            stats.count("block-with-parameters");
+        } else {
+            pr.program_as_block(k, &perm);
+        }
         let text = format!("{}{}", print::prelude(&ctx.repo_root), print::join(&pr.out));
         stats.eval();
         let (_s, analyzed) = h::write_and_analyze(&dir, &text);
